@@ -43,3 +43,5 @@ def run(ctx):
     from . import round3 as R3
     R3.r01_10_tree_untouched(ctx)
     R3.r01_9_user_classes_registered_last(ctx)
+    R3.r04_10_key_test_table(ctx, 'R01.11')
+    S.r02_2_attrset(ctx, 'R01.12')
